@@ -38,16 +38,18 @@ pub fn full_view(book: &Spreadsheet) -> String {
         let styles: Vec<String> = ws
             .get_cell_collection_sorted()
             .iter()
-            .filter(|c| c.get_style() != &Style::default())
-            .map(|c| {
+            .filter_map(|c| {
+                // the EFFECTIVE style facts; a style object that says nothing but "General" is the default style
                 let s = c.get_style();
-                format!(
-                    "{}:{}:{}:{}",
-                    c.get_coordinate().get_coordinate(),
-                    hex(s.get_number_format().map(|n| n.get_format_code()).unwrap_or("")),
-                    s.get_font().map(|f| *f.get_bold()).unwrap_or(false),
-                    s.get_background_color().map(|c| c.get_argb().to_string()).unwrap_or("-".into())
-                )
+                let code = s.get_number_format().map(|n| n.get_format_code()).unwrap_or("");
+                let code = if code == "General" { "" } else { code };
+                let bold = s.get_font().map(|f| *f.get_bold()).unwrap_or(false);
+                let bg = s.get_background_color().map(|c| c.get_argb().to_string()).unwrap_or("-".into());
+                if code.is_empty() && !bold && bg == "-" {
+                    None
+                } else {
+                    Some(format!("{}:{}:{}:{}", c.get_coordinate().get_coordinate(), hex(code), bold, bg))
+                }
             })
             .collect();
         per.push(format!(
@@ -145,7 +147,28 @@ pub fn run_case(out: &mut Out, header: &str) {
     } else {
         out.oracle_fail(Fail::new("first-generation-differs").with("op", header).with("detail", first_diff(&p0, &p1)));
     }
-    let _ = v0;
+    // ... and the same for the full view (annotations, column / row dimensions, style facts), section by section
+    {
+        let s0: Vec<&str> = v0.split(';').collect();
+        let s1: Vec<&str> = views[0].split(';').collect();
+        let mut diff = vec![];
+        if s0.len() == s1.len() {
+            for (x, y) in s0.iter().zip(s1.iter()) {
+                if x != y {
+                    let key = x.split('=').next().unwrap_or("?").trim_start_matches(|c: char| !c.is_ascii_alphabetic());
+                    diff.push(format!("{}: {}", key, first_diff(x, y)));
+                }
+            }
+        } else {
+            diff.push(format!("sections {} vs {}", s0.len(), s1.len()));
+        }
+        if diff.is_empty() {
+            out.oracle_ok();
+        } else {
+            let keys: std::collections::BTreeSet<String> = diff.iter().map(|d| d.split(':').next().unwrap_or("?").to_string()).collect();
+            out.oracle_fail(Fail::new("first-generation-full-view-differs").with("op", header).with("sections", keys.into_iter().collect::<Vec<_>>().join("+")).with("detail", diff.join(" | ")));
+        }
+    }
     // saving the same unchanged workbook twice: same parts, same content
     match guard(|| wb::save_bytes(&books[0], light)) {
         Ok(Ok(b2)) => {
